@@ -37,7 +37,8 @@ def stage_lists(d):
     return out
 
 
-def decorate(d, rng, qmode=None, raise_in_stage=False, p_kind=(0.34, 0.33, 0.33), per_model_multi=False):
+def decorate(d, rng, qmode=None, raise_in_stage=False, p_kind=(0.34, 0.33, 0.33), per_model_multi=False,
+             keep_kinds=(TRIGGER,)):
     """Turn a generated FlatDesc into a C07 case (in place).
 
     * kinds: every callback is a plain function (0), a coroutine function (1) or a coroutine function
@@ -68,7 +69,7 @@ def decorate(d, rng, qmode=None, raise_in_stage=False, p_kind=(0.34, 0.33, 0.33)
             cmds = []
             if out[0] == 'raise' and not raise_in_stage:
                 out = ('ret', True)
-        cmds = [x for x in cmds if x[0] == TRIGGER]
+        cmds = [x for x in cmds if x[0] in keep_kinds]
         if cmds or out != ('ret', True):
             d.script[(c, k)] = (cmds, out)
         else:
@@ -79,7 +80,7 @@ def decorate(d, rng, qmode=None, raise_in_stage=False, p_kind=(0.34, 0.33, 0.33)
         for key, (cmds, out) in list(d.script.items()):
             d.script[key] = ([(x[0], m0, x[2]) for x in cmds], out)
         d.history = [(x[0], m0, x[2]) for x in d.history]
-    d.history = [x for x in d.history if x[0] == TRIGGER] or [(TRIGGER, d.models[0], 0)]
+    d.history = [x for x in d.history if x[0] in keep_kinds] or [(TRIGGER, d.models[0], 0)]
     carriers = set(c for (c, _k), (cmds, _o) in d.script.items() if cmds)
     d.kinds = {}
     for c in sorted(d.cb_slot):
@@ -210,8 +211,9 @@ class Run7(flat.FlatRun):
         if out[0] == 'ret':
             self.items.append(('done', cid, 0, int(bool(out[1])), 0))
             return out[1]
-        self.items.append(('done', cid, 1, out[1], out[2]))
-        raise make_exc(out[1], out[2])
+        exc = make_exc(out[1], out[2])
+        self.items.append(('done', cid, 1) + canon_exc(exc))
+        raise exc
 
     def invoke(self, model, slot, cid, *args, **kwargs):
         cmds, out = self.begin(model, slot, cid, args, kwargs)
